@@ -102,9 +102,9 @@ Print Assumptions C05_embedding_checker_exact.
 (* non-vacuity: an option set with -F, -N, depth=, time=, size= and trace triggers has no switch *)
 Theorem C05_no_switch_example :
   no_switch (mkcfg [(1, {| t_filter := Some true; t_depth := Some 2; t_time := None; t_size := None;
-                           t_trace_on := false; t_trace_off := false; t_trace := false; t_caller := true; t_loc := None |});
+                           t_trace_on := false; t_trace_off := false; t_trace := false; t_caller := true; t_loc := None; t_finish := false |});
                     (2, {| t_filter := Some false; t_depth := None; t_time := Some 50; t_size := Some 40;
-                           t_trace_on := false; t_trace_off := false; t_trace := true; t_caller := false; t_loc := None |})]
+                           t_trace_on := false; t_trace_off := false; t_trace := true; t_caller := false; t_loc := None; t_finish := false |})]
                    true true 3 10 1024 [] PG).
 Proof. exact no_switch_example. Qed.
 Print Assumptions C05_no_switch_example.
